@@ -188,6 +188,8 @@ _c("VMulDefault", "op", "Float", "Float", [("factor", 2.0)], lambda d, w, factor
 _c("VAdd", "op", "Float", "Float", [("addend", REQ)], lambda d, w, addend: d + addend)
 _c("VAddDefault", "op", "Float", "Float", [("addend", 1.0)], lambda d, w, addend=1.0: d + addend)
 _c("VAffine", "op", "Float", "Float", [("a", REQ), ("b", 0.5)], lambda d, w, a, b=0.5: a * d + b)
+_c("VMemoMul", "op", "Float", "Float", [("factor", REQ)], lambda d, w, factor: d * factor)
+_c("VInPlaceMul", "op", "Float", "Float", [("factor", 2.0)], lambda d, w, factor=2.0: d * factor)
 _c("VPoly", "op", "Float", "Float", [("p", REQ), ("q", REQ), ("r", REQ), ("s", 0.0)], lambda d, w, p, q, r, s=0.0: p * d + q + r + s)
 _c("VAddNote", "op", "Float", "Float", [("addend", 1.0)], _addnote, created=("note",))
 _c("VCollSum", "op", "Coll", "Float", [("offset", 0.0)], lambda d, w, offset=0.0: float(sum(d)) + offset)
@@ -198,6 +200,7 @@ _c("DataDump", "op", "Any", "NoData", [], lambda d, w: NODATA, recorded=False)
 # probes
 _c("VValueProbe", "probe", "Float", None, [], lambda d, w: d)
 _c("VScaledProbe", "probe", "Float", None, [("scale", 1.0)], lambda d, w, scale=1.0: d * scale)
+_c("VMemoScaledProbe", "probe", "Float", None, [("scale", 1.0)], lambda d, w, scale=1.0: d * scale)
 _c("VOffsetProbe", "probe", "Float", None, [("offset", REQ)], lambda d, w, offset: d + offset)
 _c("VTagProbe", "probe", "Float", None, [("tag", "t")], lambda d, w, tag="t": f"{d}:{tag}")
 _c("VNoneProbe", "probe", "Float", None, [], lambda d, w: None)
@@ -533,6 +536,10 @@ def run_pipeline(nodes: list, data: Any = NODATA, ctx: Optional[dict] = None, *,
             continue
         nt.params = dict(resolved)
         if any(is_data_object(v) for v in resolved.values()):
+            res.dontcare.append(("data_object_as_parameter", nm.index))
+        if nm.comp is not None and nm.comp.name == "VInPlaceMul" and (nm.sweep is not None or any(is_data_object(v) for v in ctx.values())):
+            # an in-place operation while a probe's copy of the data OBJECT sits in the context (aliasing), or inside a
+            # sweep (all steps share one input object): not covered by the documented semantics
             res.dontcare.append(("data_object_as_parameter", nm.index))
 
         def writer(allowed):
